@@ -9,14 +9,16 @@ import (
 	"math/rand"
 	"os"
 	"strconv"
+	"sync"
 	"testing"
 )
 
 // traceWriter writes one JSON object per line. The harness records; TLC judges.
 type traceWriter struct {
-	f *os.File
-	w *bufio.Writer
-	n int
+	mu sync.Mutex
+	f  *os.File
+	w  *bufio.Writer
+	n  int
 }
 
 func newTrace(t testing.TB) *traceWriter {
@@ -39,12 +41,16 @@ func (tw *traceWriter) emit(v interface{}) {
 	}
 	// Json.ndJsonDeserialize has no null: nil slices are written as empty arrays
 	b = bytes.ReplaceAll(b, []byte(":null"), []byte(":[]"))
+	tw.mu.Lock()
+	defer tw.mu.Unlock()
 	tw.w.Write(b)
 	tw.w.WriteByte('\n')
 	tw.n++
 }
 
 func (tw *traceWriter) close() {
+	tw.mu.Lock()
+	defer tw.mu.Unlock()
 	tw.w.Flush()
 	tw.f.Close()
 }
